@@ -78,92 +78,135 @@ theorem minOff_mem {p : Offsets} (h : p ≠ []) : ∃ x ∈ p, x.2 = minOff p :=
         refine ⟨x, List.mem_cons_of_mem _ hx, ?_⟩
         rw [hx', Nat.min_eq_right (by omega)]
 
-/-! ### the invariant -/
+/-! ### the invariant
 
-theorem Covers_mono {a b : List Ev} (h : ∀ e ∈ a, e ∈ b) {i : Nat} {l : Nat × Bytes} :
-    Covers a i l → Covers b i l := fun ⟨e, he, h3⟩ => ⟨e, h e he, h3⟩
+  It is parametrised by `G`, the *good* events (all events for the no-loss theorems; after a detected
+  truncation only the events read afterwards), and by `Ex`, the sources whose offsets-file entry is
+  exempt (after a truncation the entry is stale until the next save). -/
+
+/-- some good event of `evs` is the line `l` of file `i` -/
+def CoversG (G : Ev → Prop) (evs : List Ev) (i : Nat) (l : Nat × Bytes) : Prop :=
+  ∃ e ∈ evs, G e ∧ e.ino = i ∧ e.off = l.1 ∧ e.data = l.2
+
+def allGood : Ev → Prop := fun _ => True
+def noEx : Nat → Prop := fun _ => False
+
+theorem coversG_all {evs : List Ev} {i : Nat} {l : Nat × Bytes} : CoversG allGood evs i l ↔ Covers evs i l :=
+  ⟨fun ⟨e, he, _, h⟩ => ⟨e, he, h⟩, fun ⟨e, he, h⟩ => ⟨e, he, trivial, h⟩⟩
+
+theorem CoversG_mono {G : Ev → Prop} {a b : List Ev} (h : ∀ e ∈ a, e ∈ b) {i : Nat} {l : Nat × Bytes} :
+    CoversG G a i l → CoversG G b i l := fun ⟨e, he, h3⟩ => ⟨e, h e he, h3⟩
 
 /-- the line is acked, or in flight in this run -/
-def Handled (s : State) (i : Nat) (l : Nat × Bytes) : Prop :=
-  Covers s.acked i l ∨ Covers s.inflight i l
+def Handled (G : Ev → Prop) (s : State) (i : Nat) (l : Nat × Bytes) : Prop :=
+  CoversG G s.acked i l ∨ CoversG G s.inflight i l
 
-/-- a committed offset `o` of stream `st`: the end of a line of that stream (hence a line boundary of
-    the file), and every admitted line of that stream up to it has been acked -/
-structure SoundOff (cfg : Cfg) (acked : List Ev) (i : Nat) (c : Bytes) (st : Stream) (o : Nat) : Prop where
+/-- a committed offset `o` of stream `st`: a line boundary of the file, and every admitted line of
+    that stream up to it has been acked -/
+structure SoundOff (cfg : Cfg) (G : Ev → Prop) (acked : List Ev) (i : Nat) (c : Bytes) (st : Stream) (o : Nat) : Prop where
   le : o ≤ c.length
   boundary : specTail (c.take o) [] = []
-  witness : ∃ d, (o, d) ∈ specLines c 0 [] ∧ cfg.streamOf d = st
-  covered : ∀ l ∈ specLines (c.take o) 0 [], cfg.accept l.2 = true → cfg.streamOf l.2 = st → Covers acked i l
+  covered : ∀ l ∈ specLines (c.take o) 0 [], cfg.accept l.2 = true → cfg.streamOf l.2 = st → CoversG G acked i l
 
-def SoundOffs (cfg : Cfg) (acked : List Ev) (i : Nat) (c : Bytes) (p : Offsets) : Prop :=
-  ∀ x ∈ p, SoundOff cfg acked i c x.1 x.2
+def SoundOffs (cfg : Cfg) (G : Ev → Prop) (acked : List Ev) (i : Nat) (c : Bytes) (p : Offsets) : Prop :=
+  ∀ x ∈ p, SoundOff cfg G acked i c x.1 x.2
 
-def PrefixAcked (cfg : Cfg) (acked : List Ev) (i : Nat) (c : Bytes) (m : Nat) : Prop :=
-  ∀ l ∈ specLines (c.take m) 0 [], cfg.accept l.2 = true → Covers acked i l
+/-- every offset of the list is the end of a line of its stream -/
+def Witnessed (cfg : Cfg) (c : Bytes) (p : Offsets) : Prop :=
+  ∀ x ∈ p, ∃ d, (x.2, d) ∈ specLines c 0 [] ∧ cfg.streamOf d = x.1
 
-theorem SoundOff.mono {cfg : Cfg} {a b : List Ev} {i : Nat} {c : Bytes} {st : Stream} {o : Nat} (more : Bytes)
-    (hab : ∀ e ∈ a, e ∈ b) (h : SoundOff cfg a i c st o) : SoundOff cfg b i (c ++ more) st o := by
+def PrefixAcked (cfg : Cfg) (G : Ev → Prop) (acked : List Ev) (i : Nat) (c : Bytes) (m : Nat) : Prop :=
+  ∀ l ∈ specLines (c.take m) 0 [], cfg.accept l.2 = true → CoversG G acked i l
+
+section
+variable {cfg : Cfg} {G : Ev → Prop} {Ex : Nat → Prop}
+
+theorem SoundOff.mono {a b : List Ev} {i : Nat} {c : Bytes} {st : Stream} {o : Nat} (more : Bytes)
+    (hab : ∀ e ∈ a, e ∈ b) (h : SoundOff cfg G a i c st o) : SoundOff cfg G b i (c ++ more) st o := by
   have e : (c ++ more).take o = c.take o := List.take_append_of_le_length h.le
-  refine ⟨by simp; have := h.le; omega, by rw [e]; exact h.boundary, ?_, ?_⟩
-  · obtain ⟨d, hd, hs⟩ := h.witness
-    exact ⟨d, by rw [specLines_append]; exact List.mem_append_left _ hd, hs⟩
-  · rw [e]; intro l hl ha hs; exact Covers_mono hab (h.covered l hl ha hs)
+  refine ⟨by simp; have := h.le; omega, by rw [e]; exact h.boundary, ?_⟩
+  rw [e]; intro l hl ha hs; exact CoversG_mono hab (h.covered l hl ha hs)
 
-theorem SoundOffs.mono {cfg : Cfg} {a b : List Ev} {i : Nat} {c : Bytes} {p : Offsets} (more : Bytes)
-    (hab : ∀ e ∈ a, e ∈ b) (h : SoundOffs cfg a i c p) : SoundOffs cfg b i (c ++ more) p :=
+theorem SoundOffs.mono {a b : List Ev} {i : Nat} {c : Bytes} {p : Offsets} (more : Bytes)
+    (hab : ∀ e ∈ a, e ∈ b) (h : SoundOffs cfg G a i c p) : SoundOffs cfg G b i (c ++ more) p :=
   fun x hx => (h x hx).mono more hab
 
-theorem SoundOffs.mono' {cfg : Cfg} {a b : List Ev} {i : Nat} {c : Bytes} {p : Offsets}
-    (hab : ∀ e ∈ a, e ∈ b) (h : SoundOffs cfg a i c p) : SoundOffs cfg b i c p := by
+theorem SoundOffs.mono' {a b : List Ev} {i : Nat} {c : Bytes} {p : Offsets}
+    (hab : ∀ e ∈ a, e ∈ b) (h : SoundOffs cfg G a i c p) : SoundOffs cfg G b i c p := by
   have := h.mono [] hab; simpa using this
 
-theorem PrefixAcked.mono {cfg : Cfg} {a b : List Ev} {i : Nat} {c : Bytes} {m : Nat} (more : Bytes)
-    (hm : m ≤ c.length) (hab : ∀ e ∈ a, e ∈ b) (h : PrefixAcked cfg a i c m) :
-    PrefixAcked cfg b i (c ++ more) m := by
+theorem Witnessed.mono {c : Bytes} {p : Offsets} (more : Bytes) (h : Witnessed cfg c p) :
+    Witnessed cfg (c ++ more) p := by
+  intro x hx
+  obtain ⟨d, hd, hs⟩ := h x hx
+  exact ⟨d, by rw [specLines_append]; exact List.mem_append_left _ hd, hs⟩
+
+theorem PrefixAcked.mono {a b : List Ev} {i : Nat} {c : Bytes} {m : Nat} (more : Bytes)
+    (hm : m ≤ c.length) (hab : ∀ e ∈ a, e ∈ b) (h : PrefixAcked cfg G a i c m) :
+    PrefixAcked cfg G b i (c ++ more) m := by
   have e : (c ++ more).take m = c.take m := List.take_append_of_le_length hm
-  intro l hl ha; rw [e] at hl; exact Covers_mono hab (h l hl ha)
+  intro l hl ha; rw [e] at hl; exact CoversG_mono hab (h l hl ha)
 
-theorem PrefixAcked.mono' {cfg : Cfg} {a b : List Ev} {i : Nat} {c : Bytes} {m : Nat}
-    (hab : ∀ e ∈ a, e ∈ b) (h : PrefixAcked cfg a i c m) : PrefixAcked cfg b i c m :=
-  fun l hl ha => Covers_mono hab (h l hl ha)
+theorem PrefixAcked.mono' {a b : List Ev} {i : Nat} {c : Bytes} {m : Nat}
+    (hab : ∀ e ∈ a, e ∈ b) (h : PrefixAcked cfg G a i c m) : PrefixAcked cfg G b i c m :=
+  fun l hl ha => CoversG_mono hab (h l hl ha)
 
-theorem minOff_le_length {cfg : Cfg} {a : List Ev} {i : Nat} {c : Bytes} {p : Offsets}
-    (hp : p ≠ []) (h : SoundOffs cfg a i c p) : minOff p ≤ c.length := by
+theorem minOff_le_length {a : List Ev} {i : Nat} {c : Bytes} {p : Offsets}
+    (hp : p ≠ []) (h : SoundOffs cfg G a i c p) : minOff p ≤ c.length := by
   obtain ⟨x, hx, e⟩ := minOff_mem hp
   rw [← e]; exact (h x hx).le
 
+end
+
 /-- per-job part of the invariant, relative to the list `hl` of lines the job has consumed -/
-structure JobInv (cfg : Cfg) (s : State) (i : Nat) (j : JobSt) (c : Bytes) (hl : List (Nat × Bytes)) : Prop where
+structure JobInv (cfg : Cfg) (G : Ev → Prop) (Ex : Nat → Prop) (s : State) (i : Nat) (j : JobSt) (c : Bytes)
+    (hl : List (Nat × Bytes)) : Prop where
   skip : j.w.skip = false
   le : j.w.curOffset ≤ c.length
   tail : specTail (c.take j.w.curOffset) [] = j.w.tail
-  handled : ∀ l ∈ hl, cfg.accept l.2 = true → Handled s i l
-  offs : SoundOffs cfg s.acked i c j.offsets
-  infl : ∀ e ∈ s.inflight, e.ino = i → (e.off, e.data) ∈ hl ∧ e.stream = cfg.streamOf e.data
+  handled : ∀ l ∈ hl, cfg.accept l.2 = true → Handled G s i l
+  offs : SoundOffs cfg G s.acked i c j.offsets
+  wit : ¬ Ex i → Witnessed cfg c j.offsets
+  infl : ∀ e ∈ s.inflight, G e → e.ino = i → (e.off, e.data) ∈ hl ∧ e.stream = cfg.streamOf e.data
 
-/-- in-flight events of one source are listed in offset order -/
-def Sorted (l : List Ev) : Prop := l.Pairwise (fun a b => a.ino = b.ino → a.off < b.off)
+/-- good in-flight events of one source are listed in offset order -/
+def Sorted (G : Ev → Prop) (l : List Ev) : Prop :=
+  l.Pairwise (fun a b => G a → G b → a.ino = b.ino → a.off < b.off)
 
 /-- the part of the invariant about the offsets file and the loaded offsets -/
-structure Glob (cfg : Cfg) (files : Nat → Option FileSt) (acked : List Ev)
+structure Glob (cfg : Cfg) (G : Ev → Prop) (Ex : Nat → Prop) (files : Nat → Option FileSt) (acked : List Ev)
     (persisted loaded : Nat → Option Offsets) (up : Bool) : Prop where
-  pers : ∀ i p, persisted i = some p → ∃ f, files i = some f ∧ p ≠ [] ∧ SoundOffs cfg acked i f.content p
-  loaded : ∀ i p, loaded i = some p → ∃ f, files i = some f ∧ p ≠ [] ∧ SoundOffs cfg acked i f.content p ∧
-      PrefixAcked cfg acked i f.content (minOff p)
-  down_prefix : up = false → ∀ i p f, persisted i = some p → files i = some f →
-      PrefixAcked cfg acked i f.content (minOff p)
+  pers : ∀ i p, ¬ Ex i → persisted i = some p →
+      ∃ f, files i = some f ∧ p ≠ [] ∧ SoundOffs cfg G acked i f.content p ∧ Witnessed cfg f.content p
+  loaded : ∀ i p, ¬ Ex i → loaded i = some p →
+      ∃ f, files i = some f ∧ p ≠ [] ∧ SoundOffs cfg G acked i f.content p ∧ Witnessed cfg f.content p ∧
+        PrefixAcked cfg G acked i f.content (minOff p)
+  down_prefix : up = false → ∀ i p f, ¬ Ex i → persisted i = some p → files i = some f →
+      PrefixAcked cfg G acked i f.content (minOff p)
 
-structure Inv (cfg : Cfg) (s : State) : Prop where
-  glob : Glob cfg s.files s.acked s.persisted s.loaded s.up
+structure Inv (cfg : Cfg) (G : Ev → Prop) (Ex : Nat → Prop) (s : State) : Prop where
+  glob : Glob cfg G Ex s.files s.acked s.persisted s.loaded s.up
   jobs : ∀ i j, s.jobs i = some j → ∃ f, s.files i = some f ∧
-      JobInv cfg s i j f.content (specLines (f.content.take j.w.curOffset) 0 [])
+      JobInv cfg G Ex s i j f.content (specLines (f.content.take j.w.curOffset) 0 [])
   infl_job : ∀ e ∈ s.inflight, (s.jobs e.ino).isSome
-  sorted : Sorted s.inflight
+  sorted : Sorted G s.inflight
   down : s.up = false → (∀ i, s.jobs i = none) ∧ s.inflight = []
-  skipped : ∀ e ∈ s.skipped, Covers s.acked e.ino (e.off, e.data)
+  skipped : ∀ e ∈ s.skipped, G e → CoversG G s.acked e.ino (e.off, e.data)
+  /-- an in-flight event that is not good is stale: its commit will be ignored -/
+  bad : ∀ e ∈ s.inflight, ¬ G e → ∃ j, s.jobs e.ino = some j ∧ e.seq ≤ j.ignoreLE
+  /-- the next event of every pipeline stream is good -/
+  fresh : ∀ i off data, G ⟨i, cfg.streamOf data, off, s.seqs i (cfg.streamOf data) + 1, data⟩
+  /-- exempt sources (truncated in this run) have a job -/
+  exJob : ∀ i, Ex i → (s.jobs i).isSome
 
-theorem inv_init (cfg : Cfg) : Inv cfg init := by
-  refine ⟨⟨?_, ?_, ?_⟩, ?_, ?_, ?_, ?_, ?_⟩ <;> simp [init, Sorted]
+/-- goodness only depends on source, stream and SeqID, and is upward closed in the SeqID -/
+def GoodUp (G : Ev → Prop) : Prop :=
+  ∀ i st off d off' d' q q', q ≤ q' → G ⟨i, st, off, q, d⟩ → G ⟨i, st, off', q', d'⟩
+
+theorem goodUp_all : GoodUp allGood := fun _ _ _ _ _ _ _ _ _ _ => trivial
+
+theorem inv_init (cfg : Cfg) : Inv cfg allGood noEx init := by
+  refine ⟨⟨?_, ?_, ?_⟩, ?_, ?_, ?_, ?_, ?_, ?_, ?_, ?_⟩ <;> simp [init, Sorted, allGood, noEx]
 
 /-! ### the environment: files -/
 
@@ -171,44 +214,50 @@ theorem inv_init (cfg : Cfg) : Inv cfg init := by
 def FilesGrow (fs fs' : Nat → Option FileSt) : Prop :=
   ∀ i f, fs i = some f → ∃ f' more, fs' i = some f' ∧ f'.content = f.content ++ more
 
-theorem Glob.grow {cfg : Cfg} {fs fs' : Nat → Option FileSt} {acked : List Ev}
+section
+variable {cfg : Cfg} {G : Ev → Prop} {Ex : Nat → Prop}
+
+theorem Glob.grow {fs fs' : Nat → Option FileSt} {acked : List Ev}
     {pe lo : Nat → Option Offsets} {up : Bool}
-    (hg : FilesGrow fs fs') (h : Glob cfg fs acked pe lo up) : Glob cfg fs' acked pe lo up := by
+    (hg : FilesGrow fs fs') (h : Glob cfg G Ex fs acked pe lo up) : Glob cfg G Ex fs' acked pe lo up := by
   refine ⟨?_, ?_, ?_⟩
-  · intro i p hp
-    obtain ⟨f, hf, hne, hs⟩ := h.pers i p hp
+  · intro i p hex hp
+    obtain ⟨f, hf, hne, hs, hw⟩ := h.pers i p hex hp
     obtain ⟨f', more, hf', e⟩ := hg i f hf
-    exact ⟨f', hf', hne, by rw [e]; exact hs.mono more (fun _ h => h)⟩
-  · intro i p hp
-    obtain ⟨f, hf, hne, hs, hpa⟩ := h.loaded i p hp
+    exact ⟨f', hf', hne, by rw [e]; exact hs.mono more (fun _ h => h), by rw [e]; exact hw.mono more⟩
+  · intro i p hex hp
+    obtain ⟨f, hf, hne, hs, hw, hpa⟩ := h.loaded i p hex hp
     obtain ⟨f', more, hf', e⟩ := hg i f hf
-    refine ⟨f', hf', hne, by rw [e]; exact hs.mono more (fun _ h => h), ?_⟩
+    refine ⟨f', hf', hne, by rw [e]; exact hs.mono more (fun _ h => h), by rw [e]; exact hw.mono more, ?_⟩
     rw [e]; exact hpa.mono more (minOff_le_length hne hs) (fun _ h => h)
-  · intro hup i p f' hp hf'
-    obtain ⟨f, hf, hne, hs⟩ := h.pers i p hp
+  · intro hup i p f' hex hp hf'
+    obtain ⟨f, hf, hne, hs, _⟩ := h.pers i p hex hp
     obtain ⟨f'', more, hf'', e⟩ := hg i f hf
     rw [hf'] at hf''; cases hf''
-    rw [e]; exact (h.down_prefix hup i p f hp hf).mono more (minOff_le_length hne hs) (fun _ h => h)
+    rw [e]; exact (h.down_prefix hup i p f hex hp hf).mono more (minOff_le_length hne hs) (fun _ h => h)
 
-theorem JobInv.grow {cfg : Cfg} {s s' : State} {i : Nat} {j : JobSt} {c : Bytes} (more : Bytes)
+theorem JobInv.grow {s s' : State} {i : Nat} {j : JobSt} {c : Bytes} (more : Bytes)
     (ha : s'.acked = s.acked) (hi : s'.inflight = s.inflight)
-    (h : JobInv cfg s i j c (specLines (c.take j.w.curOffset) 0 [])) :
-    JobInv cfg s' i j (c ++ more) (specLines ((c ++ more).take j.w.curOffset) 0 []) := by
+    (h : JobInv cfg G Ex s i j c (specLines (c.take j.w.curOffset) 0 [])) :
+    JobInv cfg G Ex s' i j (c ++ more) (specLines ((c ++ more).take j.w.curOffset) 0 []) := by
   have e : (c ++ more).take j.w.curOffset = c.take j.w.curOffset := List.take_append_of_le_length h.le
   rw [e]
-  refine ⟨h.skip, by simp; have := h.le; omega, by rw [e]; exact h.tail, ?_, ?_, ?_⟩
+  refine ⟨h.skip, by simp; have := h.le; omega, by rw [e]; exact h.tail, ?_, ?_, ?_, ?_⟩
   · intro l hl hacc; simp only [Handled, ha, hi]; exact h.handled l hl hacc
   · rw [ha]; exact h.offs.mono more (fun _ h => h)
+  · intro hex; exact (h.wit hex).mono more
   · rw [hi]; exact h.infl
 
 /-- a step that only changes the files, growing them -/
-theorem Inv.files_grow {cfg : Cfg} {s : State} {fs' : Nat → Option FileSt}
-    (hg : FilesGrow s.files fs') (h : Inv cfg s) : Inv cfg { s with files := fs' } := by
-  refine ⟨h.glob.grow hg, ?_, h.infl_job, h.sorted, h.down, h.skipped⟩
+theorem Inv.files_grow {s : State} {fs' : Nat → Option FileSt}
+    (hg : FilesGrow s.files fs') (h : Inv cfg G Ex s) : Inv cfg G Ex { s with files := fs' } := by
+  refine ⟨h.glob.grow hg, ?_, h.infl_job, h.sorted, h.down, h.skipped, h.bad, h.fresh, h.exJob⟩
   intro i j hj
   obtain ⟨f, hf, hji⟩ := h.jobs i j hj
   obtain ⟨f', more, hf', e⟩ := hg i f hf
   exact ⟨f', hf', by rw [e]; exact hji.grow (s := s) (s' := { s with files := fs' }) more rfl rfl⟩
+
+end
 
 theorem filesGrow_upd_append {fs : Nat → Option FileSt} {i : Nat} {f : FileSt} (hf : fs i = some f) (b : Bytes) :
     FilesGrow fs (upd fs i (some { f with content := f.content ++ b })) := by
